@@ -307,6 +307,11 @@ class Rig:
         self._keep = getattr(self, "_keep", []) + [cmd]  # keep ids unique for the episode
         qos = QosParams(max_retries=c.get("max_retries", 3), timeout=c.get("timeout", 20), wait_for_reply=c.get("wait_for_reply"))
         ev = self.log("call", caller=n, frame=fr["frame"])
+        for tev in self.ep.get("events", []):
+            # a transport event in the very loop iteration of the call: queued now, it runs after send_cmd() has
+            # put the command in the buffer and before the buffer check that send_cmd() schedules
+            if tev.get("with_call") == n:
+                self.loop.call_soon(self._do_event, tev)
         try:
             pkt = await self.protocol.send_cmd(cmd, priority=Priority(c.get("priority", 0)), qos=qos)
         except asyncio.CancelledError:
@@ -748,13 +753,19 @@ def gen_multi(rng, max_callers: int = 4) -> dict[str, Any]:
 def gen_faulty(rng) -> dict[str, Any]:
     """Multi-caller episode with transport events: disconnects in every state, write failures, pauses."""
     ep = gen_multi(rng, 3)
-    kind = rng.choice(("fail_write", "disconnect_at", "disconnect_after_write", "disc_reconnect", "pause", "late_packets"))
+    kind = rng.choice(("fail_write", "disconnect_at", "disconnect_after_write", "disc_reconnect", "pause", "late_packets", "event_with_call"))
     if kind == "fail_write":
         ep["fail_writes"] = sorted({rng.randint(1, 5) for _ in range(rng.randint(1, 2))})
     elif kind == "disconnect_at":
         ep["events"] = [{"at": rng.choice((0.0, 0.002, 0.004, 0.02, 0.3, 0.5, 0.5 + EPS, 1.5, 4.0)), "do": rng.choice(("disconnect", "disconnect_err", "disconnect_serial"))}]
     elif kind == "disconnect_after_write":
         ep["events"] = [{"after_write": rng.randint(1, 4), "delay": rng.choice((0.0, 0.001, 0.004, 0.005, 0.02, 0.5)), "do": rng.choice(("disconnect", "disconnect_err", "disconnect_serial"))}]
+    elif kind == "event_with_call":
+        # a transport event in the loop iteration of a call: after the command was queued, before the buffer check
+        n = rng.randrange(len(ep["callers"]))
+        ep["events"] = [{"with_call": n, "do": rng.choice(("disconnect", "disconnect_err", "disconnect_serial", "pause"))}]
+        if rng.random() < 0.4:
+            ep["events"].append({"at": ep["callers"][n].get("at", 0.0) + rng.choice((0.0, 0.001, 0.3, 2.0)), "do": rng.choice(("reconnect", "resume"))})
     elif kind == "disc_reconnect":
         t = rng.choice((0.002, 0.3, 0.5, 1.0))
         ep["events"] = [{"at": t, "do": "disconnect"}, {"at": t + rng.choice((0.0, 0.001, 0.5, 3.0)), "do": "reconnect"}]
